@@ -1,6 +1,7 @@
 package main
 
 import (
+	"path/filepath"
 	"bytes"
 	"context"
 	"fmt"
@@ -213,7 +214,28 @@ func runCfgChild(op string) string {
 	for time.Now().Before(deadline) {
 		select {
 		case code := <-done:
-			return fmt.Sprintf("refused:%d", code)
+			// the program itself (package main of /repo, built next to this binary) must refuse it too, with a
+			// non-zero exit status: proxy.Run's return value is only what main() makes of it
+			res := fmt.Sprintf("refused:%d", code)
+			exe := filepath.Join(filepath.Dir(os.Args[0]), "cql-proxy")
+			if _, err := os.Stat(exe); err == nil {
+				ectx, ecancel := context.WithTimeout(context.Background(), 5*time.Second)
+				cmd := exec.CommandContext(ectx, exe, args...)
+				err := cmd.Run()
+				ecode := 0
+				if ee, ok := err.(*exec.ExitError); ok {
+					ecode = ee.ExitCode()
+				} else if err != nil {
+					ecode = -2
+				}
+				if ectx.Err() != nil {
+					res += ",exe=running"
+				} else if ecode != code {
+					res += fmt.Sprintf(",exe=%d", ecode)
+				}
+				ecancel()
+			}
+			return res
 		default:
 		}
 		c, err := net.DialTimeout("tcp", bind, 100*time.Millisecond)
@@ -222,7 +244,8 @@ func runCfgChild(op string) string {
 			// serving: which versions does it take from clients, and which one did it use towards the backend?
 			max := 0
 			for _, v := range []int{3, 4, 5, 65, 66} {
-				if cfgAccepts(bind, byte(v)) {
+				// asked on a fresh connection, and on one that has already spoken an accepted version
+				if cfgAccepts(bind, byte(v), false) || cfgAccepts(bind, byte(v), true) {
 					max = v
 				}
 			}
@@ -280,12 +303,28 @@ func cfgOverrideSeen(addr string, cl *fakecass.Cluster, cons uint16, v primitive
 	return "not-forwarded"
 }
 
-func cfgAccepts(addr string, v byte) bool {
+func cfgAccepts(addr string, v byte, warm bool) bool {
 	c, err := e2e.DialRaw(addr)
 	if err != nil {
 		return false
 	}
 	defer c.Close()
+	if warm {
+		// a v3 handshake first (v3 is accepted by every configuration that starts), then the version in question
+		if c.WriteBytes(rawFrame(3, 5, 1, nil)) != nil {
+			return false
+		}
+		if _, err := c.Recv(500 * time.Millisecond); err != nil {
+			return false
+		}
+		c.Version = primitive.ProtocolVersion3
+		if c.Send(2, &message.Startup{Options: map[string]string{"CQL_VERSION": "3.0.0"}}) != nil {
+			return false
+		}
+		if _, err := c.Recv(500 * time.Millisecond); err != nil {
+			return false
+		}
+	}
 	if c.WriteBytes(rawFrame(v, 5, 1, nil)) != nil {
 		return false
 	}
